@@ -326,7 +326,9 @@ func checkCompactionTables(p *Program, r *Report, wantExpiry, wantTomb bool) {
 			continue
 		}
 		ret := s.Vals[len(s.Vals)-1]
-		for k, v := range s.St.facts {
+		for _, k := range sortedFactKeys(s.St) {
+			v := s.St.facts[k]
+			_ = v
 			t := s.St.fterm[k]
 			if v || t == nil || t.Op != "eq" || len(t.Args) != 2 {
 				continue
